@@ -450,6 +450,15 @@ def _layout(ck: Checker) -> None:
                     parts.append(x.value)
                 else:
                     parts.append(x)
+            def _res(p):
+                # `sep = os.sep` hoisted into a local
+                if isinstance(p, ast.Name):
+                    ds_ = scope_of(fn).get(p.id)
+                    if len(ds_) == 1 and ds_[0].kind == "assign" and getattr(ds_[0], "value", None) is not None:
+                        return ds_[0].value
+                return p
+
+            parts = [_res(p) for p in parts]
             txt = [norm(p) if not isinstance(p, ast.Constant) else repr(p.value) for p in parts]
             slices = [p for p in parts if isinstance(p, ast.Subscript) and norm(p.value) == "oid" and isinstance(p.slice, ast.Slice)]
             if len(slices) == 2:
